@@ -728,6 +728,28 @@ func (env *Env) trCall(e *E) Val {
 			return true
 		}()
 		return Val{S: "(unbox_Int " + x.S + ")", Sort: "Int"}
+	case "fld": // fld(T, f): the heap map of field f of package struct type T (pointer -> value)
+		if len(e.A) != 2 || e.A[0].K != "id" || e.A[1].K != "id" || env.tpkg == nil {
+			sfail("fld(TypeName, field)")
+		}
+		c, fs, ft := env.m.fieldComp(env.tpkg, e.A[0].S, e.A[1].S)
+		if c == "" {
+			sfail("fld: no field %s.%s", e.A[0].S, e.A[1].S)
+		}
+		_ = ft
+		return Val{S: env.heap(c), Sort: "(Array Int " + fs + ")"}
+	case "deref": // deref(p): the value stored at the location p (an address-valued argument)
+		x := arg(0)
+		if x.Loc == nil {
+			sfail("deref of a non-location")
+		}
+		return Val{S: env.loadLoc(x.Loc), Sort: m.sortOf(x.Loc.T), G: x.Loc.T}
+	case "baseOf": // baseOf(p): the object containing the addressed field
+		x := arg(0)
+		if x.Loc == nil || x.Loc.Base == "" {
+			sfail("baseOf of a non-field address")
+		}
+		return Val{S: x.Loc.Base, Sort: "Int"}
 	case "isType": // isType(x, T): interface value x holds a *T of this package
 		x := arg(0)
 		if len(e.A) != 2 || e.A[1].K != "id" || env.tpkg == nil {
@@ -987,4 +1009,24 @@ func (env *Env) loadLoc(l *Loc) string {
 		}
 	}
 	return base
+}
+
+// fieldComp resolves Type.field of a package to its heap component.
+func (m *Mod) fieldComp(pkg *types.Package, typ, field string) (comp, fsort string, ft types.Type) {
+	obj := pkg.Scope().Lookup(typ)
+	if obj == nil {
+		return "", "", nil
+	}
+	st, ok := obj.Type().Underlying().(*types.Struct)
+	if !ok {
+		return "", "", nil
+	}
+	ss := m.sortOf(obj.Type())
+	for i := 0; i < st.NumFields(); i++ {
+		if st.Field(i).Name() == field {
+			fs := m.sortOf(st.Field(i).Type())
+			return m.compField(ss, field, fs), fs, st.Field(i).Type()
+		}
+	}
+	return "", "", nil
 }
